@@ -310,3 +310,51 @@ Definition ex_mid : res (state * list nid) :=
   '(s1, _, _) <-! run_block 0 [] (s <| heap := w0 |>) b0;
   let '(b1, w1) := Heap.takeMinBlock (heap s1) in
   Ok (s1 <| heap := w1 |>, b1).
+
+(** * 2b. Plans whose node functions call Var.Set / Var.Update (no faults) *)
+(** the actions the recompute of [n] performs: a cutoff node runs its predicate, a map node its
+    function; the other kinds run no user code *)
+Definition nodeActs (p : plan) (s : state) (n : nid) : list action :=
+  match nkind (nd s n) with
+  | KCutoff _ => actions_of p n WCut
+  | KMap _ | KMap2 _ | KMapN _ => actions_of p n WFn
+  | _ => []
+  end.
+
+Definition is_fault (a : action) : bool := match a with AFail _ => true | _ => false end.
+Definition target (a : action) : option nid :=
+  match a with ASet v _ | AUpdate v _ => Some v | AFail _ => None end.
+Definition targets (l : list action) : list nid := omap target l.
+
+(** Var.Set while the graph is stabilizing: the value is deferred *)
+Definition varSetD (s : state) (v : nid) (x : Z) : state :=
+  let vn := nd s v in
+  let eqv := match nkind vn with KVar e => e | _ => false end in
+  if eqv && negb (bool_decide (is_Some (pending vn))) && (value vn =? x) then s
+  else (upd s v (set pending (fun _ => Some x))) <| setDuring := insert_sorted v (setDuring s) |>.
+
+Definition setAct (s : state) (a : action) : state :=
+  match a with
+  | ASet v x => varSetD s v x
+  | AUpdate v d => let vn := nd s v in
+                   let current := match pending vn with Some q => q | None => value vn end in
+                   varSetD s v (norm (current + d))
+  | AFail _ => s
+  end.
+Definition setsT (acts : list action) (s : state) : state := foldl setAct s acts.
+
+(** all the sets of a block, in processing order *)
+Definition setsAll (p : plan) (order : list nid) (s : state) : state :=
+  foldl (fun s n => setsT (nodeActs p s n) s) s order.
+
+Definition isVarKind (k : kind) : bool := match k with KVar _ => true | _ => false end.
+
+(** the node functions of the block are race free among themselves: no faults, they only set
+    vars, and no var is set by two different nodes of the block *)
+Record sets_ok (p : plan) (s : state) (B : list nid) : Prop := {
+  so_status : status s = 1;
+  so_nofault : forall n a, n ∈ B -> a ∈ nodeActs p s n -> is_fault a = false;
+  so_vars : forall n v, n ∈ B -> v ∈ targets (nodeActs p s n) -> isVarKind (nkind (nd s v)) = true;
+  so_disjoint : forall n m v, n ∈ B -> m ∈ B -> n <> m ->
+                  v ∈ targets (nodeActs p s n) -> v ∈ targets (nodeActs p s m) -> False
+}.
